@@ -155,6 +155,242 @@ theorem named_cases_not_honourable (cfg : Cfg) (s : State) (now : Nat) (m : Msg)
   · intro hf hh; obtain ⟨l, hm, _, _, hc, _⟩ := hh.lease; exact hf l hm hc
   · intro hn hh; exact hn hh.inSubnet
 
+/-! ### the values `Config.New` puts into the two subnets (audit F4) -/
+
+theorem masked_div (a bits : Nat) : a / 2 ^ (32 - bits) * 2 ^ (32 - bits) / 2 ^ (32 - bits) = a / 2 ^ (32 - bits) :=
+  Nat.mul_div_cancel _ (Nat.pos_of_ne_zero (by exact Nat.ne_of_gt (Nat.two_pow_pos _)))
+
+/-- **C12 (a) with the concrete values of the statement.**  For a server constructed by `Config.New` (`mkCfg n`; the tie
+    compares the subnets of the real handler after `New` with `mkCfg`): every OFFER / ACK to a captured client carries an
+    address of the netfilter prefix, OUR netfilter address as router and the family DNS server 1.1.1.3; every OFFER / ACK to
+    a client that is not captured an address of the home LAN, the REAL router and the configured DNS server (the router
+    when none is configured); always the matching mask, OUR host address as server identifier, four hours of lease time,
+    the request's xid and chaddr. -/
+theorem reply_conforms_new (n : NewCfg) {s : State} {L : Ledger} (h : Reach (mkCfg n) s L) (op : Op) (m : Msg)
+    (hm : msgOf op = some m) (o : State × List Reply) (ho : o ∈ step (mkCfg n) s op) (r : Reply) (hr : r ∈ o.2)
+    (ht : r.typ ≠ .nak) : ConformsNew n (isCaptured s m.chaddr) m r := by
+  have hc := reply_conforms h op m hm o ho r hr ht
+  cases hcap : isCaptured s m.chaddr <;> rw [hcap] at hc
+  · refine ⟨?_, ?_, ?_, ?_, ?_, ?_, hc.xid, hc.chaddr⟩
+    · have := hc.inSubnet
+      simp only [inNet, clientNet, mkCfg, mkSubnet, Bool.false_eq_true, if_false, masked_div] at this ⊢
+      exact this
+    · simpa [clientNet, mkCfg, mkSubnet] using hc.router
+    · simpa [clientNet, mkCfg, mkSubnet] using hc.dns
+    · simpa [clientNet, mkCfg, mkSubnet] using hc.mask
+    · simpa [clientNet, mkCfg, mkSubnet] using hc.serverId
+    · simpa [clientNet, mkCfg, mkSubnet] using hc.leaseTime
+  · refine ⟨?_, ?_, ?_, ?_, ?_, ?_, hc.xid, hc.chaddr⟩
+    · have := hc.inSubnet
+      simp only [inNet, clientNet, mkCfg, mkSubnet, if_true, masked_div] at this ⊢
+      exact this
+    · simpa [clientNet, mkCfg, mkSubnet] using hc.router
+    · simpa [clientNet, mkCfg, mkSubnet] using hc.dns
+    · simpa [clientNet, mkCfg, mkSubnet] using hc.mask
+    · simpa [clientNet, mkCfg, mkSubnet] using hc.serverId
+    · simpa [clientNet, mkCfg, mkSubnet] using hc.leaseTime
+
+/-- when `Config.New` accepts the netfilter prefix, the netfilter subnet lies inside the home LAN -/
+theorem accepted_net2_in_net1 (n : NewCfg) (ha : n.accepted = true) (ip : IP)
+    (h2 : (mkCfg n).net2.contains ip = true) : (mkCfg n).net1.contains ip = true := by
+  unfold NewCfg.accepted at ha
+  simp only [Bool.and_eq_true, beq_iff_eq, decide_eq_true_eq] at ha
+  obtain ⟨hin, hb⟩ := ha
+  simp only [mkCfg, mkSubnet, Subnet.contains, Subnet.size, beq_iff_eq, masked_div] at h2 ⊢
+  -- ip and nfAddr agree on the first nfBits bits, hence on the first homeBits ≤ nfBits bits
+  have key : ∀ a b : Nat, a / 2 ^ (32 - n.nfBits) = b / 2 ^ (32 - n.nfBits) →
+      a / 2 ^ (32 - n.homeBits) = b / 2 ^ (32 - n.homeBits) := by
+    intro a b e
+    have hd : 2 ^ (32 - n.homeBits) = 2 ^ (32 - n.nfBits) * 2 ^ ((32 - n.homeBits) - (32 - n.nfBits)) := by
+      rw [← Nat.pow_add]; congr 1; omega
+    rw [hd, ← Nat.div_div_eq_div_mul, ← Nat.div_div_eq_div_mul, e]
+  rw [key _ _ h2, hin]
+
+/-! ### the observer's view of offers and leases (audit F5) -/
+
+/-- runs of the machine together with what an observer of the wire has seen -/
+def runW (cfg : Cfg) : State → Observed → List Op → List (State × Observed)
+  | s, W, [] => [(s, W)]
+  | s, W, op :: ops => (step cfg s op).flatMap (fun o => runW cfg o.1 (watch W op o.2) ops)
+
+def ReachW (cfg : Cfg) (s : State) (W : Observed) : Prop := ∃ ops, (s, W) ∈ runW cfg (init cfg) ⟨[], []⟩ ops
+
+/-- the server's lease table never knows more than the wire has shown: an allocated lease stands for the address last
+    acknowledged to that client, a lease in discover state for an OFFER sent to that client with that xid -/
+def SimW (s : State) (W : Observed) : Prop :=
+  ∀ c l, (c, l) ∈ s.table →
+    (l.state = .allocated → ∀ ip, l.ip = some ip → (c, ip) ∈ W.held)
+    ∧ (l.state = .discover → ∀ ip, l.offer = some ip → (⟨c, l.xid, ip⟩ : OfferRec) ∈ W.offers)
+
+/-- what the observer knows about other clients survives an op of client `c` -/
+def Keeps (c : Cid) (W W' : Observed) : Prop :=
+  (∀ k ip, k ≠ c → (k, ip) ∈ W.held → (k, ip) ∈ W'.held) ∧ (∀ o : OfferRec, o.cid ≠ c → o ∈ W.offers → o ∈ W'.offers)
+
+theorem keeps_refl (c : Cid) (W : Observed) : Keeps c W W := ⟨fun _ _ _ h => h, fun _ _ h => h⟩
+
+theorem watch_keeps (W : Observed) (op : Op) (rs : List Reply) (c : Cid) (hc : subject op = some c) :
+    Keeps c W (watch W op rs) := by
+  unfold watch
+  rw [hc]
+  constructor
+  · intro k ip hk hm
+    simp only []
+    split
+    · exact hm
+    · exact List.mem_append_left _ (List.mem_filter.2 ⟨hm, by simpa using hk⟩)
+  · intro o ho hm
+    simp only []
+    split
+    · exact List.mem_append_left _ (List.mem_filter.2 ⟨hm, by simpa using ho⟩)
+    · exact hm
+
+/-- replies without ACK to an op that is not a DISCOVER leave the observer's knowledge as it is -/
+theorem watch_quiet (W : Observed) (op : Op) (rs : List Reply) (hd : isDiscover op = false)
+    (hn : ∀ r, r ∈ rs → r.typ ≠ .ack) : watch W op rs = W := by
+  unfold watch
+  cases hs : subject op with
+  | none => rfl
+  | some c =>
+    have ha : ackedOf c rs = [] := by
+      unfold ackedOf
+      rw [List.map_eq_nil_iff, List.filter_eq_nil_iff]
+      intro r hr; simpa using hn r hr
+    simp [ha, hd]
+
+theorem simW_set {s : State} {W W' : Observed} (hS : SimW s W) (c : Cid) (v : Lease) (hk : Keeps c W W')
+    (hv : (v.state = .allocated → ∀ ip, v.ip = some ip → (c, ip) ∈ W'.held)
+      ∧ (v.state = .discover → ∀ ip, v.offer = some ip → (⟨c, v.xid, ip⟩ : OfferRec) ∈ W'.offers))
+    (s' : State) (hs' : s'.table = setLease s.table c v) : SimW s' W' := by
+  intro k l hm
+  rw [hs'] at hm
+  rcases mem_setLease.1 hm with ⟨rfl, rfl⟩ | ⟨hne, hm⟩
+  · exact hv
+  · obtain ⟨h1, h2⟩ := hS k l hm
+    exact ⟨fun a ip e => hk.1 k ip hne (h1 a ip e), fun a ip e => hk.2 _ hne (h2 a ip e)⟩
+
+/-- the lease `findOrCreate` hands out is backed by the observer's knowledge (a fresh lease is free) -/
+theorem simW_foc {s : State} {W : Observed} (hS : SimW s W) (c : Cid) (mac : MAC) :
+    ((findOrCreate s c mac).state = .allocated → ∀ ip, (findOrCreate s c mac).ip = some ip → (c, ip) ∈ W.held)
+    ∧ ((findOrCreate s c mac).state = .discover → ∀ ip, (findOrCreate s c mac).offer = some ip →
+        (⟨c, (findOrCreate s c mac).xid, ip⟩ : OfferRec) ∈ W.offers) := by
+  rcases findOrCreate_cases s c mac with hm | hf
+  · exact hS c _ hm.1
+  · rw [hf]; simp [freshLease]
+
+theorem simW_step {cfg : Cfg} {s : State} {W : Observed} (hS : SimW s W) (op : Op)
+    (o : State × List Reply) (ho : o ∈ step cfg s op) : SimW o.1 (watch W op o.2) := by
+  cases op with
+  | discover now m =>
+    simp only [step, List.mem_singleton] at ho; subst ho
+    have hk := watch_keeps W (.discover now m) (discover cfg s now m).2 (clientId m) rfl
+    rcases discover_outcome cfg s now m with ⟨cur, e⟩ | ⟨s1, ip, _, _, _, e, _⟩ <;> rw [e] at hk ⊢
+    · intro k l hm
+      simp only [] at hm
+      obtain ⟨hne, hm⟩ := mem_delLease.1 hm
+      obtain ⟨h1, h2⟩ := hS k l hm
+      exact ⟨fun a ip e => hk.1 k ip hne (h1 a ip e), fun a ip e => hk.2 _ hne (h2 a ip e)⟩
+    · refine simW_set hS (clientId m) (offerLease s now m ip) hk ⟨?_, ?_⟩ _ rfl
+      · intro a; simp [offerLease] at a
+      · intro _ ip' e
+        simp only [offerLease, Option.some.injEq] at e
+        subst e
+        simp [watch, subject, isDiscover, offeredOf, mkReply, offerLease]
+  | request now m =>
+    simp only [step, List.mem_singleton] at ho; subst ho
+    rcases request_outcome cfg s now m with e | ⟨l', rs, hkept, e, hn⟩ | ⟨hv, e⟩
+    · rw [e, watch_quiet W _ [] rfl (by intro r hr; simp at hr)]; exact hS
+    · rw [e, watch_quiet W _ rs rfl (by intro r hr; rw [hn r hr]; decide)]
+      have h0 := simW_foc hS (clientId m) m.chaddr
+      rcases verdict_kept hkept with rfl | ⟨rfl, _⟩
+      · exact simW_set hS _ _ (keeps_refl _ _) h0 _ rfl
+      · exact simW_set hS _ _ (keeps_refl _ _) ⟨by intro a; simp [freedLease] at a, by intro a; simp [freedLease] at a⟩ _ rfl
+    · have hk := watch_keeps W (.request now m) (request cfg s now m).2 (clientId m) rfl
+      rw [e, ackLease_eq] at hk ⊢
+      have ha := verdict_ack hv
+      have hip := ackedLease_ip ha now
+      refine simW_set hS (clientId m) _ hk ⟨?_, ?_⟩ _ rfl
+      · intro _ ip' e'
+        rw [hip] at e'
+        simp only [Option.some.injEq] at e'
+        subst e'
+        simp [watch, subject, ackedOf, mkReply, hip]
+      · intro a; simp [ackedLease] at a
+  | decline m =>
+    simp only [step, List.mem_singleton] at ho; subst ho
+    have h0 := simW_foc hS (clientId m) m.chaddr
+    rcases decline_outcome cfg s m with e | e <;> rw [e, watch_quiet W _ [] rfl (by intro r hr; simp at hr)]
+    · exact simW_set hS _ _ (keeps_refl _ _) h0 _ rfl
+    · exact simW_set hS _ _ (keeps_refl _ _)
+        ⟨by intro a; simp [declinedLease] at a, by intro a; simp [declinedLease] at a⟩ _ rfl
+  | release m =>
+    simp only [step, List.mem_singleton] at ho; subst ho
+    simp only [release]
+    rw [watch_quiet W _ [] rfl (by intro r hr; simp at hr)]
+    exact simW_set hS _ _ (keeps_refl _ _) (simW_foc hS (clientId m) m.chaddr) _ rfl
+  | minuteTick now =>
+    simp only [step, List.mem_singleton] at ho; subst ho
+    intro k l hm
+    simp only [watch, subject]
+    obtain ⟨l0, hm0, r⟩ := mem_freeLeases hm
+    obtain ⟨h1, h2⟩ := hS k l0 hm0
+    rcases r with rfl | ⟨rfl, _⟩
+    · exact ⟨h1, h2⟩
+    · exact ⟨by intro a; simp at a, by intro a; simp at a⟩
+  | capture mac => simp only [step, List.mem_singleton] at ho; subst ho; exact hS
+  | releaseCapture mac => simp only [step, List.mem_singleton] at ho; subst ho; exact hS
+  | hostSeen ip mac => simp only [step, List.mem_singleton] at ho; subst ho; exact hS
+  | hostGone ip => simp only [step, List.mem_singleton] at ho; subst ho; exact hS
+
+theorem reachW_sim (cfg : Cfg) : ∀ (ops : List Op) (s : State) (W : Observed), SimW s W →
+    ∀ sw, sw ∈ runW cfg s W ops → SimW sw.1 sw.2
+  | [], s, W, hS, sw, h => by simp [runW] at h; rw [h]; exact hS
+  | op :: ops, s, W, hS, sw, h => by
+    simp only [runW, List.mem_flatMap] at h
+    obtain ⟨o, ho, h'⟩ := h
+    exact reachW_sim cfg ops o.1 _ (simW_step hS op o ho) sw h'
+
+/-- **C12 (b) against the wire.**  Along every history, an ACK is sent only
+    * in answer to a selecting REQUEST, for exactly the address of an OFFER that was really sent to this client (client id)
+      in this transaction (the REQUEST's xid), not superseded by a later DISCOVER of the client nor consumed by an ACK; or
+    * for exactly the address last acknowledged to this client (its current lease);
+    where "sent" / "acknowledged" are what an observer recorded from the replies alone (`Spec.Ledger.watch`). -/
+theorem ack_confirms_observed {cfg : Cfg} {s : State} {W : Observed} (h : ReachW cfg s W) (now : Nat) (m : Msg) (r : Reply)
+    (hr : r ∈ (request cfg s now m).2) (ht : r.typ = .ack) :
+    (reqKind m = .selecting ∧ (⟨clientId m, m.xid, r.yiaddr⟩ : OfferRec) ∈ W.offers)
+      ∨ (clientId m, r.yiaddr) ∈ W.held := by
+  obtain ⟨ops, hops⟩ := h
+  have hS : SimW s W := reachW_sim cfg ops (init cfg) ⟨[], []⟩ (by intro c l hm; simp [init] at hm) (s, W) hops
+  rcases request_replies cfg s now m with e | ⟨srv, e⟩ | ⟨hv, hnz, e⟩
+  · rw [e] at hr; simp at hr
+  · rw [e] at hr; simp at hr; rw [hr] at ht; cases ht
+  · have ha := verdict_ack hv
+    rw [e, ackLease_eq] at hr
+    simp only [List.mem_singleton] at hr
+    have hip := ackedLease_ip ha now
+    have hy : r.yiaddr = reqIPOf m := by rw [hr]; simp only [mkReply, hip, Option.getD_some]
+    obtain ⟨h1, h2⟩ := simW_foc hS (clientId m) m.chaddr
+    rw [hy]
+    cases hs : (findOrCreate s (clientId m) m.chaddr).state
+    · exact absurd hs ha.notFree
+    · left
+      obtain ⟨hk, hx, ho, _⟩ := ha.disc hs
+      refine ⟨hk, ?_⟩
+      have := h2 hs _ ho
+      rw [hx] at this
+      exact this
+    · right
+      exact h1 hs _ (ha.alloc hs)
+
+/-- non-vacuity of `ack_confirms_observed`: after DISCOVER (OFFER 10, xid 1001) the observer holds that offer and the
+    selecting REQUEST is acknowledged; afterwards it holds the lease, the offer is consumed -/
+example : ReachW cfgEx
+    { table := [(macA, { state := .allocated, mac := macA, ip := some 10, offer := none, xid := [1, 0, 0, 1], sub := .net2,
+                         expiry := 14500 })],
+      next1 := 1, next2 := 11, hosts := [], captured := [macA] }
+    ⟨[], [(macA, 10)]⟩ :=
+  ⟨[.capture macA, .discover 100 (msgEx 1 none none), .request 100 (msgEx 1 (some [0, 0, 0, 10]) (some [0, 0, 0, 9]))],
+   by decide⟩
+
 /-- in secondary mode (and in nice mode for a captured client) a selecting REQUEST for another server is
     answered with NAK carrying our server id; in primary mode it is ignored -/
 theorem other_server_nak_or_silence (cfg : Cfg) (s : State) (now : Nat) (m : Msg)
